@@ -106,6 +106,7 @@ pub fn plan(projects: &[Project], opts: &Opts) -> Vec<Value> {
             }
         }
         cases.push(json!({"kind": "read", "project": p.id, "faults": [{"op": "locales_dir_missing", "file": ""}], "decoys": false, "codegen": true}));
+        cases.push(json!({"kind": "read", "project": p.id, "faults": [{"op": "crlf", "file": "Cargo.toml"}], "decoys": false, "codegen": true}));
     }
     // ---- byte-level faults
     if thorough && !variant {
@@ -241,6 +242,21 @@ pub fn judge(project: &Project, case: &Value, reply: &Value) -> Vec<Violation> {
         }
     }
 
+    // CRLF line endings in the manifest are the same manifest: the project loads as it does fault-free
+    if fired_faults.iter().any(|f| f["op"] == "crlf") {
+        for stage in ["parse", "build", "codegen"] {
+            let st = &reply[stage];
+            let must_be_ok = stage != "codegen" || crate::corpus::VARIANT.is_empty();
+            if must_be_ok && st["status"] == "err" {
+                out.push(Violation {
+                    invariant: "transparent_fault".into(),
+                    signature: format!("{stage}: CRLF line endings in the manifest turned a loadable project into an error"),
+                    detail: st["display"].as_str().unwrap_or("").chars().take(300).collect(),
+                });
+                break;
+            }
+        }
+    }
     for stage in ["parse", "build", "codegen"] {
         let st = &reply[stage];
         match st["status"].as_str().unwrap_or("") {
